@@ -14,6 +14,10 @@ AUTOMATA_UNIT = 'lltdResponder/lltdAutomata.c'
 
 
 def load_core(config='systemd', extra=()):
+    import os
+    # the thorough tier re-runs the checks on the other Linux build configuration of the same core sources
+    if config == 'systemd' and os.environ.get('LLTD_CONFIG'):
+        config = os.environ['LLTD_CONFIG']
     units = [u for u in facts.compile_db() if u.config == config and (u.path in facts.CORE_UNITS or u.path in extra)]
     facts.load_units(units)
     bad = [u for u in units if u.ast is None]
